@@ -478,10 +478,33 @@ def check_pointer_trust(ck):
                   "new consumer of pointer content at %s is neither an opener nor validated" % fi.qual, f2.where(call))
 
 
+def _caught_oserror_atom(h, counter=None):
+    """atom function: the object handler `h` caught (under its name) is an OSError -- isinstance against OSError or one of its bases
+    holds, against a builtin class unrelated to OSError fails, against a subclass of OSError is open."""
+    import builtins
+
+    def atom(e):
+        if h.name is not None and isinstance(e, ast.Call) and isinstance(e.func, ast.Name) and e.func.id == "isinstance" and len(e.args) == 2 \
+                and isinstance(e.args[0], ast.Name) and e.args[0].id == h.name:
+            ts = e.args[1].elts if isinstance(e.args[1], ast.Tuple) else [e.args[1]]
+            names = [(A.norm(t) or "").split(".")[-1] for t in ts]
+            if any(n in OSERROR_NAMES for n in names):
+                if counter is not None:
+                    counter[0] += 1
+                return True
+            if all(isinstance(getattr(builtins, n, None), type) and not issubclass(getattr(builtins, n), OSError) for n in names):
+                if counter is not None:
+                    counter[0] += 1
+                return False
+        return None
+    return atom
+
+
 def _after_handler(fa, handler):
     """What the function returns on the paths that run through an exception handler:
     ([(leaf value expr, node)], [raise statements reachable from the handler before any return])."""
-    A0 = Assume(fa, lambda e: None)
+    # ... for an I/O error: a test of the class of what was caught (`if not isinstance(e, OSError): raise`) is decided
+    A0 = Assume(fa, _caught_oserror_atom(handler))
     vals, raises = [], []
     for hn in [n.id for n in fa.cfg.nodes if n.kind == "except" and n.ast is handler and n.id in fa.cfg.reachable_nodes()]:
         IN = A0.flow({hn: A0.handler_seed(hn)})
@@ -1044,29 +1067,59 @@ def _guarding_wrapper(ck, fi):
 
 def _sorting_handler_absorbs_oserror(ck, fa, h) -> bool:
     """`h` catches everything under a name, tests the class of what it caught (isinstance) and, when that is an OSError, raises
-    nothing: decided by what remains reachable inside the handler under the assumption that the caught object is an OSError
-    (isinstance against OSError or one of its bases holds, against an unrelated class fails, against a subclass is open)."""
+    nothing: decided by what remains reachable inside the handler under the assumption that the caught object is an OSError."""
     if h.name is None or h.type is None or A.norm(h.type) not in ("Exception", "BaseException"):
         return False
-    import builtins
     decided = [0]
-
-    def atom(e):
-        if isinstance(e, ast.Call) and isinstance(e.func, ast.Name) and e.func.id == "isinstance" and len(e.args) == 2 \
-                and isinstance(e.args[0], ast.Name) and e.args[0].id == h.name:
-            ts = e.args[1].elts if isinstance(e.args[1], ast.Tuple) else [e.args[1]]
-            names = [(A.norm(t) or "").split(".")[-1] for t in ts]
-            if any(n in OSERROR_NAMES for n in names):
-                decided[0] += 1
-                return True
-            if all(isinstance(getattr(builtins, n, None), type) and not issubclass(getattr(builtins, n), OSError) for n in names):
-                decided[0] += 1
-                return False
-        return None
-    asm = Assume(fa, atom)
+    asm = Assume(fa, _caught_oserror_atom(h, decided))
     raises = [n for st in h.body for n in A.walk_local(st) if isinstance(n, ast.Raise)]
     live = [r for r in raises if asm.live(r)]
     return bool(raises) and not live and decided[0] > 0
+
+
+def _handler_yields_none(fa, handler) -> bool:
+    """In a generator: every path from the handler reaches, before anything else is yielded, raised or the generator ends, a
+    `yield None` -- the slot of the item at hand is filled with "absent"."""
+    cfg = fa.cfg
+    ynodes = {}
+    for n in cfg.nodes:
+        if n.kind == "stmt" and n.ast is not None and n.id in cfg.reachable_nodes():
+            ys = [x for x in A.walk_local(n.ast) if isinstance(x, (ast.Yield, ast.YieldFrom))]
+            if ys:
+                ynodes[n.id] = ys
+    hns = [n.id for n in cfg.nodes if n.kind == "except" and n.ast is handler and n.id in cfg.reachable_nodes()]
+    if not hns:
+        return False
+    asm = Assume(fa, _caught_oserror_atom(handler))
+    live = asm.reach(hns, removed=list(ynodes))
+    if cfg.exit in live or getattr(cfg, "raise_exit", None) in live:
+        return False
+    if any(cfg.node(i).kind == "stmt" and isinstance(cfg.node(i).ast, (ast.Raise, ast.Return)) for i in live):
+        return False
+    first = {d for i in live for (d, l) in cfg.succ[i] if d in ynodes and asm.edge_ok(i, d, l)}
+    return bool(first) and all(len(ynodes[d]) == 1 and isinstance(ynodes[d][0], ast.Yield)
+                               and (ynodes[d][0].value is None or A.is_none(ynodes[d][0].value)) for d in first)
+
+
+def _returns_all_of(fa, A0, call) -> bool:
+    """The function returns exactly what the generator call yields: list(call) / tuple(call) / [*call] / [x for x in call], directly or
+    through plain temporaries."""
+    def whole(e, n, dep=4):
+        while isinstance(e, ast.Call) and isinstance(e.func, ast.Name) and e.func.id in ("list", "tuple") and len(e.args) == 1 and not e.keywords:
+            e = e.args[0]
+        if e is call:
+            return True
+        if isinstance(e, (ast.List, ast.Tuple)) and len(e.elts) == 1 and isinstance(e.elts[0], ast.Starred):
+            return whole(e.elts[0].value, n, dep)
+        if isinstance(e, (ast.ListComp, ast.GeneratorExp)) and len(e.generators) == 1 and not e.generators[0].ifs \
+                and isinstance(e.elt, ast.Name) and isinstance(e.generators[0].target, ast.Name) and e.elt.id == e.generators[0].target.id:
+            return whole(e.generators[0].iter, n, dep)
+        if isinstance(e, ast.Name) and dep > 0:
+            leaves = A0.cases(e, n, fa.df.IN)
+            return bool(leaves) and not any(x is e for (x, _) in leaves) and all(whole(x, m, dep - 1) for (x, m) in leaves)
+        return False
+    rets = [(r, i) for r in fa.returns() if r.value is not None for i in fa.nodes(r)]
+    return bool(rets) and all(whole(x, m) for (r, i) in rets for (x, m) in A0.cases(r.value, i, fa.df.IN))
 
 
 def check_recovery(ck):
@@ -1148,7 +1201,12 @@ def check_recovery(ck):
                 for c in fh.calls("_read_memento"):
                     hs = [x for t in _try_around(fh, c) for x in t.handlers if _handler_covers_oserror(x)]
                     ok = False
-                    if hs:
+                    if hs and any(isinstance(x, (ast.Yield, ast.YieldFrom)) for x in A.walk_body(fh.node)):
+                        # a generator of answers, one per call asked for: after the handler the next thing yielded is None, and
+                        # the caller returns everything the generator yields, in order
+                        ok = _handler_yields_none(fh, hs[0]) and _returns_all_of(gm, A0, call)
+                        _handler_cannot_fail(ck, R, fh, hs[0], c, "while reading a memento")
+                    elif hs:
                         vals, raises = _after_handler(fh, hs[0])
                         ok = bool(vals) and not raises and all(A.is_none(e) for (e, n, IN) in vals)
                         appended = [a for a in gm.calls("append") if len(a.args) == 1 and gm.nodes(a)
